@@ -102,7 +102,7 @@ func RunHarnessWith(src, pkg string, timeout time.Duration, extra map[string][]b
 	os.WriteFile(ovFile, ov, 0o644)
 	ctx, cancel := context.WithTimeout(context.Background(), timeout)
 	defer cancel()
-	cmd := exec.CommandContext(ctx, "go", "test", "-overlay", ovFile, "-vet=off", "-count=1", "-timeout", "900s", "-run", "^TestVerifReplay$", "-v", "./"+pkg)
+	cmd := exec.CommandContext(ctx, "go", "test", "-overlay", ovFile, "-vet=off", "-count=1", "-timeout", "2400s", "-run", "^TestVerifReplay$", "-v", "./"+pkg)
 	cmd.Dir = RepoDir
 	cmd.Env = append(os.Environ(), "GOFLAGS=-mod=mod", "GOPROXY=off", "GOSUMDB=off", "GOTOOLCHAIN=local")
 	var out bytes.Buffer
@@ -131,7 +131,7 @@ func tryReplay(e *Engine, prop string, o *Obligation, r SolveResult) (bool, inte
 			return false, "no model from the solver (" + r.Status + ")"
 		}
 		src, missing := fillTemplate(string(tmpl), r.Model, ent.Defaults)
-		out, runErr := RunHarness(src, ent.Pkg, 180*time.Second)
+		out, runErr := RunHarness(src, ent.Pkg, 15*time.Minute)
 		reproduced := strings.Contains(out, "REPLAY-VIOLATED")
 		res := map[string]interface{}{"harness": ent.Harness, "package": ent.Pkg, "inputs": r.Model, "missing_probes": missing,
 			"output": truncate(tailLines(out, 40), 6000), "reproduced": reproduced}
